@@ -4,6 +4,7 @@ import (
 	"bytes"
 	"context"
 	"fmt"
+	"regexp"
 	"runtime/debug"
 
 	"git.defalsify.org/vise.git/cache"
@@ -136,6 +137,18 @@ type Session struct {
 	Ca *cache.Cache
 	// FlushOnErr: also call Flush when Exec returned an error (C17 probes this)
 	FlushOnErr bool
+	// ReuseBuf: every input is handed to Exec in one and the same buffer (a caller that
+	// reads requests into a fixed buffer), overwritten for the next request
+	ReuseBuf bool
+	buf      [1024]byte
+	// HoldRefused (engine-per-request operation): an engine whose first Exec was refused
+	// for the length of the input is kept and serves the request after the next one (a
+	// caller that retries on the object it has), while a fresh engine serves the one in
+	// between
+	HoldRefused bool
+	held        *engine.DefaultEngine
+	heldPe      *persist.Persister
+	heldWait    int
 	// NoFlush: never call Flush (C17: asking for output before executing)
 }
 
@@ -175,6 +188,13 @@ func protect(where string, st *Step, f func()) (ok bool) {
 	return true
 }
 
+var acceptablePattern = regexp.MustCompile(`^\+?[a-zA-Z0-9].*$`)
+
+// acceptable: the documented input contract (empty, or the input pattern and at most 255 bytes).
+func acceptable(input []byte) bool {
+	return len(input) == 0 || (len(input) <= 255 && acceptablePattern.Match(input))
+}
+
 // Request serves one client input.
 func (s *Session) Request(input []byte) (step Step) {
 	ctx := context.Background()
@@ -212,17 +232,32 @@ func (s *Session) Request(input []byte) (step Step) {
 			step.ExecErr = "storage: " + err.Error()
 			return step
 		}
+		if s.held != nil && s.heldWait == 0 && acceptable(input) {
+			en, pe = s.held, s.heldPe
+			s.held, s.heldPe = nil, nil
+			break
+		}
+		if s.held != nil && s.heldWait > 0 && acceptable(input) {
+			s.heldWait--
+		}
 		pe = persist.NewPersister(store)
 		en = s.newEngine().WithPersister(pe)
 	default:
 		panic("unknown mode " + s.Mode.Kind)
 	}
 	var execErr error
-	if !protect("exec", &step, func() { step.Cont, execErr = en.Exec(ctx, input) }) {
+	arg := input
+	if s.ReuseBuf && len(input) <= len(s.buf) {
+		arg = s.buf[:copy(s.buf[:], input)]
+	}
+	if !protect("exec", &step, func() { step.Cont, execErr = en.Exec(ctx, arg) }) {
 		return s.finish(ctx, en, pe, &step)
 	}
 	if execErr != nil {
 		step.ExecErr = execErr.Error()
+		if s.HoldRefused && s.Mode.Kind == "persist" && len(input) > 255 && s.held == nil {
+			s.held, s.heldPe, s.heldWait = en, pe, 1
+		}
 	}
 	if execErr == nil || s.FlushOnErr {
 		var buf bytes.Buffer
